@@ -88,24 +88,23 @@ Example stale_bumped :
   history_independent_at W [HRun find_late; HEnv (EDefine cLate true)] find_late.
 Proof. vm_compute. reflexivity. Qed.
 
-(* ---- (c) local_names_match prunes the index ---- *)
+(* ---- (c) until /repo c28ded8 local_names_match pruned the index: a typeless decode made
+   find_type lose an unbuildable class, a second local_names_match raised ValueError.  The
+   history is harmless now (regression examples; harness/c14.py replays them) ---- *)
 Definition find_broken : script := op_script W (OCall (CFindType (q "{urn:k}Broken"))).
 Definition decode_x : script := decode W (J JO [J (JK (q "x")) [J (JS (q "1")) []]]) None.
 Definition h_prune : list hop := [HRun decode_x].
 
-Lemma refuted_prune : world_ok W = true /\ ~ history_independent_at W h_prune find_broken.
-Proof. split; [reflexivity|]. intros H. vm_compute in H. discriminate. Qed.
-
-Example prune_guard_clause :
-  let '(_, _, t) := run_hist W ctx0 h_prune in quiet t = false.
+Example former_prune_harmless : history_independent_at W h_prune find_broken.
 Proof. vm_compute. reflexivity. Qed.
 
-(* the second local_names_match on the pruned class raises ValueError *)
 Definition names_broken : script := op_script W (OCall (CLocalNamesMatch [q "a"] 14)).
-Example prune_value_error :
-  let '(w, x, _) := run_hist W ctx0 [HRun (op_script W (OCall CBuildXsi)); HRun names_broken] in
-  result w x names_broken = RErr e_value [] /\ result w ctx0 names_broken = ROk (Node (q "false") []).
-Proof. vm_compute. split; reflexivity. Qed.
+Example former_value_error_harmless :
+  history_independent_at W [HRun (op_script W (OCall CBuildXsi)); HRun names_broken] names_broken.
+Proof. vm_compute. reflexivity. Qed.
+
+Example former_prune_guarded : hist_guard W (h_prune ++ [HRun names_broken; HRun names_broken]) find_broken = true.
+Proof. vm_compute. reflexivity. Qed.
 
 (* ---- (d) build_recursive stops at a cached class ---- *)
 Definition rec_dep : script := op_script W (OCall (CBuildRecursive 16 None)).
